@@ -283,7 +283,7 @@ Proof. intro H. exact (proj2 (reach_good sc s H)). Qed.
 (** * the same closure argument for any invariant that reads the devices only *)
 Section Closure.
   Variable Inv : fw -> Prop.
-  Hypothesis Inv_same : forall w w', f_devs w' = f_devs w -> Inv w -> Inv w'.
+  Hypothesis Inv_same : forall w w', f_devs w' = f_devs w -> f_next_id w' = f_next_id w -> Inv w -> Inv w'.
   Hypothesis Inv_exec : forall nw fuel uops a w, Inv w -> Inv (exec_fact fuel uops a w nw).
   Hypothesis Inv_uop : forall fuel nw w o, Inv w -> Inv (run_uop fuel nw w o).
   Hypothesis Inv_init : forall fuel nw w, wf_worldb w = true -> Inv (init_world fuel nw w).
@@ -297,7 +297,7 @@ Section Closure.
     unfold exec_fl in H.
     set (w1 := exec_fact (fl_fuel w) (fun k => nth k (fq_uops sc) []) a w (e_time e)) in *.
     assert (I1 : Inv w1) by (apply Inv_exec; exact I).
-    assert (I2 : Inv (fst (flush_f w1))) by (apply (Inv_same w1); [reflexivity|exact I1]).
+    assert (I2 : Inv (fst (flush_f w1))) by (apply (Inv_same w1); [reflexivity|reflexivity|exact I1]).
     destruct (flush_f w1) as [w2 cs] eqn:FL. cbn [fst] in I2.
     destruct (apply_cmds ws _ cs); [destruct (fl_wfail w2)|]; injection H as <-; cbn; exact I2.
   Qed.
@@ -322,21 +322,21 @@ Section Closure.
                       | Ok en => ((clear_ferr w1, en), f_err w1)
                       | Err en => ((clear_ferr w1, en), if f_err w1 =? 0 then 1 else f_err w1)
                       end)))).
-    { intros w Gw. assert (Gf : Inv (fst (flush_f w))) by (apply (Inv_same w); [reflexivity|exact Gw]).
+    { intros w Gw. assert (Gf : Inv (fst (flush_f w))) by (apply (Inv_same w); [reflexivity|reflexivity|exact Gw]).
       destruct (flush_f w) as [w1 cs]. cbn [fst] in Gf.
-      destruct (apply_cmds ws (snd s) cs); cbn; (apply (Inv_same w1); [reflexivity|exact Gf]). }
+      destruct (apply_cmds ws (snd s) cs); cbn; (apply (Inv_same w1); [reflexivity|reflexivity|exact Gf]). }
     destruct x.
     - contradiction.
     - destruct (step ws (exec_fl sc) fl_wfail s) as [[s'|s']|] eqn:ST; cbn.
       + apply (step_Inv sc ws s (Ok s') G ST).
-      + apply (Inv_same (fst s')); [reflexivity|]. apply (step_Inv sc ws s (Err s') G ST).
+      + apply (Inv_same (fst s')); [reflexivity|reflexivity|]. apply (step_Inv sc ws s (Err s') G ST).
       + exact G.
     - unfold run. destruct (start_run ws (snd s) d) as [en|en].
       + match goal with |- context[loop ?a ?b ?c ?n ?st] => destruct (loop a b c n st) as [[s'|s']|] eqn:RN end; cbn [fst].
         * apply (loop_Inv sc ws _ (fst s, en) (Ok s') G RN).
-        * apply (Inv_same (fst s')); [reflexivity|]. apply (loop_Inv sc ws _ (fst s, en) (Err s') G RN).
+        * apply (Inv_same (fst s')); [reflexivity|reflexivity|]. apply (loop_Inv sc ws _ (fst s, en) (Err s') G RN).
         * exact G.
-      + cbn [fst]. apply (Inv_same (fst s)); [reflexivity|exact G].
+      + cbn [fst]. apply (Inv_same (fst s)); [reflexivity|reflexivity|exact G].
     - destruct (apply_cmd ws (snd s) (CSched t prio (-5) (AUser k))); cbn; exact G.
     - apply FIN. apply Inv_uop, G.
   Qed.
@@ -347,9 +347,9 @@ Section Closure.
     - unfold do_fxop. cbn [fst snd].
       assert (G : Inv (init_world (fl_fuel (fq_world sc)) (now (init_env (A:=fact))) (fq_world sc))) by (apply Inv_init, WF).
       set (w0 := init_world _ _ _) in *.
-      assert (Gf : Inv (fst (flush_f w0))) by (apply (Inv_same w0); [reflexivity|exact G]).
+      assert (Gf : Inv (fst (flush_f w0))) by (apply (Inv_same w0); [reflexivity|reflexivity|exact G]).
       destruct (flush_f w0) as [w1 cs]. cbn [fst] in Gf.
-      destruct (apply_cmds _ _ cs); cbn; (apply (Inv_same w1); [reflexivity|exact Gf]).
+      destruct (apply_cmds _ _ cs); cbn; (apply (Inv_same w1); [reflexivity|reflexivity|exact Gf]).
     - apply do_fxop_Inv; assumption.
   Qed.
 End Closure.
